@@ -149,8 +149,19 @@ pub fn g_bytes(long_weight: u32) -> BoxedStrategy<(Vec<u8>, &'static str)> {
         long_weight => g_bytes_len(20, 300, 12, 3116).prop_map(|v| (v, "len301-3116")),
         3 => g_eod().prop_map(|v| (v, "eod-shaped")),
         long_weight => g_b256_boundary().prop_map(|v| (v, "b256-length-boundary")),
+        2 => g_homogeneous(300).prop_map(|v| (v, "len41-300")),
     ]
     .boxed()
+}
+
+/// one character class only (digits, upper case, ..., high bytes), any length up to `max`: the inputs on
+/// which a single mode is optimal from the first to the last character
+pub fn g_homogeneous(max: usize) -> impl Strategy<Value = Vec<u8>> {
+    (any::<u16>(), 1usize..=max, any::<u64>(), any::<bool>()).prop_map(|(c, len, seed, same)| {
+        let class = pick(c, N_CLASSES - 1);
+        let r = expand(seed, len);
+        (0..len).map(|i| class_char(class, if same { r[0] } else { r[i] })).collect()
+    })
 }
 
 /// short / medium inputs only (used where the oracle is quadratic)
@@ -160,6 +171,7 @@ pub fn g_bytes_short() -> BoxedStrategy<(Vec<u8>, &'static str)> {
         5 => g_bytes_len(1, 8, 8, 40).prop_map(|v| (v, "len9-40")),
         2 => g_bytes_len(4, 16, 10, 120).prop_map(|v| (v, "len41-120")),
         4 => g_eod().prop_map(|v| (v, "eod-shaped")),
+        2 => g_homogeneous(100).prop_map(|v| (v, "len41-120")),
         1 => g_b256_boundary().prop_filter_map("short variants only", |v| if v.len() < 300 { Some((v, "b256-length-boundary")) } else { None }),
     ]
     .boxed()
